@@ -149,7 +149,10 @@ pub fn make_predicate(kind: u8) -> Option<Box<dyn Fn(&NodeState) -> bool + Send>
         0 => None,
         1 => Some(Box::new(|ns: &NodeState| ns.contains_key("a"))),
         2 => Some(Box::new(|ns: &NodeState| ns.get("a") == Some("v1"))),
-        _ => Some(Box::new(|ns: &NodeState| ns.contains_key("ab"))),
+        3 => Some(Box::new(|ns: &NodeState| ns.contains_key("ab"))),
+        // predicates that hold on a state without key-values ("not draining")
+        4 => Some(Box::new(|ns: &NodeState| !ns.contains_key("a"))),
+        _ => Some(Box::new(|_ns: &NodeState| true)),
     }
 }
 
@@ -158,7 +161,9 @@ pub fn eval_predicate(kind: u8, ns: &NodeState) -> bool {
         0 => true,
         1 => ns.contains_key("a"),
         2 => ns.get("a") == Some("v1"),
-        _ => ns.contains_key("ab"),
+        3 => ns.contains_key("ab"),
+        4 => !ns.contains_key("a"),
+        _ => true,
     }
 }
 
